@@ -180,6 +180,13 @@ def _gen_leaf(rng, flags, funcs, mapper_pkg, allow_func=True):
             choices += [(N("common", "Level"), N("dst", "Status"), "full"),(N("common", "Level"), B("int"), "full"), (B("int64"), N("common", "Level"), "full"),
                         (N("common", "Code"), B("string"), "full"), (N("common", "Ratio"), B("float64"), "small"),
                         (N("common", "Tiny"), B("int16"), "full"), (N("common", "Code"), N("dst", "Text"), "full")]
+        if flags.get("way") == "toonly":
+            # a named scalar of the SOURCE package is healthy when only ToX is generated (FromX would have to write
+            # `src.Rank(x)` inside package src: K_map_src_named_qualified); against a basic, a dest-named and a common type
+            # (not against a dest-named scalar: two named non-structs are the class of K_map_submap_nonstruct)
+            choices += [(N("src", "Rank"), B("int"), "full"), (N("src", "Rank"), B("int64"), "full")] * 2
+            if not alias:
+                choices += [(N("src", "Rank"), N("common", "Level"), "full")]
         s, d, vc = rng.choice(choices)
         return s, d, vc, "named"
     if r < 0.64:
@@ -288,6 +295,8 @@ def gen_pair(rng, quirks=False, force=None):
     src_decls, dst_decls = [], []
     dst_decls.append({"name": "Status", "kind": "basic", "basic": "int"})
     dst_decls.append({"name": "Text", "kind": "basic", "basic": "string"})
+    if flags["way"] == "toonly":
+        src_decls.append({"name": "Rank", "kind": "basic", "basic": "int"})
     jobs = []
     feats = set()
 
@@ -766,7 +775,10 @@ class Sentinels:
         return base
 
 
-def gen_value(rng, spec, t, mode, sent, vc="full", depth=0):
+REC_LIMIT = 3   # a recursive type (Node{Next *Node}) is unfolded this many times, then its pointers/slices are nil
+
+
+def gen_value(rng, spec, t, mode, sent, vc="full", depth=0, stack=()):
     """mode: probability of nil at each nil-able position (0.0 = everything allocated);
     slices get 1..3 elements"""
     k = t[0]
@@ -783,17 +795,20 @@ def gen_value(rng, spec, t, mode, sent, vc="full", depth=0):
         d = struct_decl(spec, t[1], t[2])
         if d["kind"] == "basic":
             return gen_value(rng, spec, B(d["basic"]), mode, sent, vc, depth)
-        return ["struct", [[f["name"], gen_value(rng, spec, f["ty"], mode, sent, f.get("vc", "full"), depth + 1)]
+        st2 = stack + ((t[1], t[2]),)
+        return ["struct", [[f["name"], gen_value(rng, spec, f["ty"], mode, sent, f.get("vc", "full"), depth + 1, st2)]
                            for f in d["fields"]]]
+    if k in ("ptr", "slice") and _rec_cut(t, stack):
+        return ["nil"]
     if k == "ptr":
         if rng.random() < mode:
             return ["nil"]
-        return ["ptr", gen_value(rng, spec, t[1], mode, sent, vc, depth + 1)]
+        return ["ptr", gen_value(rng, spec, t[1], mode, sent, vc, depth + 1, stack)]
     if k == "slice":
         if rng.random() < mode:
             return ["nil"]
         n = rng.choice([0, 1, 2, 3]) if depth < 3 else 1
-        return ["list", [gen_value(rng, spec, t[1], mode, sent, vc, depth + 1) for _ in range(n)]]
+        return ["list", [gen_value(rng, spec, t[1], mode, sent, vc, depth + 1, stack) for _ in range(n)]]
     if k == "map":
         if rng.random() < mode:
             return ["nil"]
@@ -814,30 +829,41 @@ def sort_key(v):
     return (2, 0, repr(v).encode())
 
 
-def nil_positions(spec, t, path=()):
+def _rec_cut(t, stack):
+    """t (a pointer or slice type) leads back into a struct type that is already unfolded REC_LIMIT times"""
+    u = t
+    while u[0] in ("ptr", "slice"):
+        u = u[1]
+    return u[0] == "named" and stack.count((u[1], u[2])) >= REC_LIMIT
+
+
+def nil_positions(spec, t, path=(), stack=()):
     """nil-able positions of a value of type t (pointers, slices, maps); slices contribute their
-    first two elements' positions"""
+    first two elements' positions; recursive types are unfolded REC_LIMIT times"""
     k = t[0]
     res = []
     if k == "named":
         d = struct_decl(spec, t[1], t[2])
         if d["kind"] == "struct":
+            st2 = stack + ((t[1], t[2]),)
             for f in d["fields"]:
-                res += nil_positions(spec, f["ty"], path + (f["name"],))
+                res += nil_positions(spec, f["ty"], path + (f["name"],), st2)
+    elif k in ("ptr", "slice") and _rec_cut(t, stack):
+        pass        # always nil there
     elif k == "ptr":
         res.append(path)
-        res += nil_positions(spec, t[1], path + ("*",))
+        res += nil_positions(spec, t[1], path + ("*",), stack)
     elif k == "slice":
         res.append(path)
         if t[1][0] in ("ptr", "named"):
             for i in range(2):
-                res += nil_positions(spec, t[1], path + (i,))
+                res += nil_positions(spec, t[1], path + (i,), stack)
     elif k == "map":
         res.append(path)
     return res
 
 
-def gen_value_pattern(rng, spec, t, nils, sent, vc="full", path=()):
+def gen_value_pattern(rng, spec, t, nils, sent, vc="full", path=(), stack=()):
     """a value whose nil-able positions in [nils] (a set of paths) are nil and all others allocated;
     slices of pointer/struct elements have exactly two elements"""
     k = t[0]
@@ -847,17 +873,18 @@ def gen_value_pattern(rng, spec, t, nils, sent, vc="full", path=()):
         d = struct_decl(spec, t[1], t[2])
         if d["kind"] == "basic":
             return gen_value(rng, spec, t, 0, sent, vc)
+        st2 = stack + ((t[1], t[2]),)
         return ["struct", [[f["name"], gen_value_pattern(rng, spec, f["ty"], nils, sent, f.get("vc", "full"),
-                                                          path + (f["name"],))] for f in d["fields"]]]
-    if path in nils:
+                                                          path + (f["name"],), st2)] for f in d["fields"]]]
+    if path in nils or (k in ("ptr", "slice") and _rec_cut(t, stack)):
         return ["nil"]
     if k == "ptr":
-        return ["ptr", gen_value_pattern(rng, spec, t[1], nils, sent, vc, path + ("*",))]
+        return ["ptr", gen_value_pattern(rng, spec, t[1], nils, sent, vc, path + ("*",), stack)]
     if k == "slice":
         if t[1][0] in ("ptr", "named"):
-            return ["list", [gen_value_pattern(rng, spec, t[1], nils, sent, vc, path + (i,)) for i in range(2)]]
-        return gen_value(rng, spec, t, 0, sent, vc)
-    return gen_value(rng, spec, t, 0, sent, vc)
+            return ["list", [gen_value_pattern(rng, spec, t[1], nils, sent, vc, path + (i,), stack) for i in range(2)]]
+        return gen_value(rng, spec, t, 0, sent, vc, 0, stack)
+    return gen_value(rng, spec, t, 0, sent, vc, 0, stack)
 
 
 def render_go_value(spec, t, v, here, quals=QUALS):
@@ -1286,6 +1313,11 @@ def corpus():
         [st("T", [_f("Code", N("common", "Code"), emb=True), _f("ID", B("int"))])],
         [st("T", [_f("Code", N("common", "Code"), emb=True), _f("ID", B("int64"))])],
         [_job("T", "T")]))
+    # 17. a RECURSIVE type: the generated ToX/FromX call themselves through a pointer and through a slice of pointers
+    #     (the recursion of eval_to/eval_from through the SAME plan); values are unfolded three levels deep
+    node_s = st("T", [_f("Val", B("int")), _f("Next", P(N("src", "T"))), _f("Kids", ["slice", P(N("src", "T"))])])
+    node_d = st("T", [_f("Val", B("int64")), _f("Next", P(N("dst", "T"))), _f("Kids", ["slice", P(N("dst", "T"))])])
+    res.append(_spec([node_s], [node_d], [_job("T", "T")]))
     return res
 
 
